@@ -122,8 +122,111 @@ def check_case(case):
     return st in ("ok", "skip"), what
 
 
+# ------------------------------------------------------------------ the class of model/C08Spec2.v
+# (the refined classifier finding_class_C08_r = finding_class_C08 where that names a class, otherwise the class below)
+NEW_CLASSES = ("text-quoted-three-deep",)
+
+
+def _stages(kind, ir, o):
+    """(t1, i1, t2, i2, t3) on the real code, or None when anything raises"""
+    try:
+        t1 = emit(kind, ir, o)
+        i1 = parse(kind, t1, o)
+        t2 = emit(kind, i1, o)
+        i2 = parse(kind, t2, o)
+        return t1, i1, t2, i2, emit(kind, i2, o)
+    except Exception:  # noqa
+        return None
+
+
+def _strip_pair(ir, qsum, qhelps):
+    """a copy of the description with one outer pair of quote marks removed from the summary and from the prose of every
+    parameter that is wrapped in one (what one more emission does to each of them); None when the summary (qsum) / the prose
+    of a parameter named in qhelps is not wrapped in a pair of the same quote mark"""
+    def cut(t):
+        return t[1:-1] if isinstance(t, str) and len(t) > 2 and t[0] == t[-1] and t[0] in "'\"" else None
+    exp = copy.deepcopy(ir)
+    if cut(exp.get("doc")) is not None:
+        exp["doc"] = cut(exp["doc"])
+    elif qsum:
+        return None
+    for n, p in (exp.get("params") or {}).items():
+        if cut(p.get("doc")) is not None:
+            p["doc"] = cut(p["doc"])
+        elif n in qhelps:
+            return None
+    if any(n not in (exp.get("params") or {}) for n in qhelps):
+        return None
+    return exp
+
+
+def described_by_new_class(kind, ir, o, qsum, qhelps):
+    """the new class stands for the failure it describes only: nothing raises, and the description the third text is emitted
+    from (parse of the second emission) is the description the second text was emitted from (parse of the first emission)
+    with ONE more outer pair of quote marks removed from the summary and every prose still wrapped in one (among them the
+    summary / the prose of the named parameters, which were wrapped in three pairs or more) and nothing else changed - as descriptions (summary, names, order, types, prose, defaults with their Python type) and as emitted text (the
+    third emission is the emission of that stripped description).  Every other difference is not what the class describes"""
+    st = _stages(kind, ir, o)
+    if st is None:
+        return False
+    _, i1, t2, i2, t3 = st
+    exp = _strip_pair(i1, qsum, qhelps)
+    if exp is None or t2 == t3:
+        return False
+    J = prop_C05._jsonable
+    if json.dumps(J(exp), default=str) != json.dumps(J(i2), default=str):
+        return False
+    try:
+        return emit(kind, exp, o) == t3
+    except Exception:  # noqa
+        return False
+
+
+def _absorb(failures):
+    """failures reported under the NEW class keep it only when the failure is what the class describes (otherwise class None:
+    a violation)"""
+    idx = [k for k, f in enumerate(failures) if f["class"] in NEW_CLASSES]
+    reqs = [dumps([Sym("c08_new_classes"), Sym(failures[k]["case"]["kind"]),
+                   irwire.enc_ir(_od(prop_C05._from_case(failures[k]["case"]["ir"])))]) for k in idx]
+    hist = collections.Counter()
+    for k, r in zip(idx, run_model(reqs)):
+        e = loads(r)
+        f = failures[k]
+        c = f["case"]
+        if not (e[0] == "true" and described_by_new_class(c["kind"], prop_C05._from_case(c["ir"]), c["opts"], e[1] == "true",
+                                                          [unhx(x) for x in e[2]])):
+            f["what"] += " [not what the recorded class %s describes]" % f["class"]
+            hist["new-class-not-described:" + f["class"]] += 1
+            f["class"] = None
+    return hist
+
+
+def new_shape_ir(rng):
+    """a description inside the region of the argparse kind given one of the shapes proofs found inside the first
+    classifiers' regions: the summary and / or the prose of a parameter wrapped in 1..4 pairs of single quote marks (one and
+    two pairs stabilise, three or more do not), or a float default -0.0 (stabilises as 0.0 after one pass through the class
+    kind)"""
+    ir, _ = prop_C05.region_ir(rng, ["argparse"])
+    names = list(ir["params"])
+    if not names:
+        names = ["x"]
+        ir["params"]["x"] = {"typ": "int", "doc": "the x.", "default": 1}
+    shape = rng.choice(["quoted-summary", "quoted-summary", "quoted-prose", "quoted-prose", "quoted-both", "negzero"])
+    depth = rng.choice([1, 2, 3, 3, 3, 4])
+    if shape in ("quoted-summary", "quoted-both"):
+        ir["doc"] = prop_C05.sq_text(rng, depth, terminal=rng.random() < 0.3)
+    if shape in ("quoted-prose", "quoted-both"):
+        ir["params"][rng.choice(names)]["doc"] = prop_C05.sq_text(rng, depth if shape == "quoted-prose" else rng.randint(1, 4),
+                                                                   terminal=rng.random() < 0.5)
+    if shape == "negzero":
+        p = ir["params"][rng.choice(names)]
+        p["typ"], p["default"] = rng.choice(["float", "float", "Optional[float]"]), -0.0
+    return ir, ["region", "new-shape", shape if shape == "negzero" else "%s:%d" % (shape, depth)]
+
+
 def gen_points(rng, tier):
     pts = []
+    side = prop_C05._side_rng(rng)
     n_ir = 500 if tier == "quick" else 1500
     for _ in range(n_ir):
         r = rng.random()
@@ -142,6 +245,17 @@ def gen_points(rng, tier):
                 cs = rng.sample(cs, min(len(cs), 4 if kind in ("function", "method") else 3))
             elif kind in ("function", "method"):
                 cs = rng.sample(cs, 24)
+            for o in cs:
+                pts.append((ir, kind, o, tags))
+    # the shapes of new_shape_ir: about one description in twenty, every kind (quick: 3-4 option combinations each)
+    for _ in range(28 if tier == "quick" else 80):
+        ir, tags = new_shape_ir(side)
+        for kind in KINDS:
+            cs = combos(kind)
+            if tier == "quick":
+                cs = side.sample(cs, min(len(cs), 4 if kind in ("function", "method") else 3))
+            elif kind in ("function", "method"):
+                cs = side.sample(cs, 24)
             for o in cs:
                 pts.append((ir, kind, o, tags))
     if tier == "thorough":
@@ -167,7 +281,7 @@ def oracle(rng, tier):
         if k in key_of:
             continue
         try:
-            w = dumps([Sym("c08_class"), Sym(kind), irwire.enc_ir(_od(ir))])
+            w = dumps([Sym("c08_class_r"), Sym(kind), irwire.enc_ir(_od(ir))])
         except Exception:  # noqa
             key_of[k] = "unencodable"
             continue
@@ -218,6 +332,11 @@ def oracle(rng, tier):
         if r in ("true", "false") and (r == "true") != ok:
             disagree.append({"case": case, "model_holds": r, "impl_holds": ok})
         hist["rest-model:" + r] += 1
+    hist.update(_absorb(failures))
+    for (ir, kind, o, tags), (st, what) in zip(pts, results):
+        c = key_of[(kind, id(ir))]
+        if "new-shape" in tags and isinstance(c, tuple) and c != ("out-of-domain",):
+            hist["new-shapes:%s:%s:%s:%s" % (tags[-1], kind, "holds" if st in ("ok", "skip") else "fails", c[0] or "in-region")] += 1
     return {
         "evaluations": evaluations,
         "distinct_nontrivial": len(seen),
@@ -225,7 +344,11 @@ def oracle(rng, tier):
                 "generator of prop_C05, descriptions inside the region) x the seven kinds x emitter option combinations (quick: 3-4 "
                 "sampled per kind; thorough: all for docstring / class / argparse kinds, 24 of 96 for function and method, and all 96 on "
                 "in-region descriptions); t1 = emit, t2 = emit(parse(t1)), t3 = emit(parse(t2)) on the real code; holds = nothing raises "
-                "after t1 and t2 == t3 byte for byte; non-trivial = distinct (kind, description, options) inside the guard",
+                "after t1 and t2 == t3 byte for byte; non-trivial = distinct (kind, description, options) inside the guard; "
+                "classification by the refined classifier C08Spec2.finding_class_C08_r; a stratum of the shapes proofs found inside "
+                "the first classifiers' regions (summary / prose wrapped in one to four pairs of single quote marks, a float default "
+                "-0.0) on every kind; the new class stands only for the difference it describes (the description parsed from the "
+                "second emission is the one parsed from the first with one more pair of quote marks removed, nothing else changed)",
         "failures": failures,
         "model_impl_property_disagreements": disagree,
         "histogram": dict(hist),
